@@ -220,7 +220,7 @@ def C01(ctx):
     quick_plan = r.printed("B")
     if len(quick_plan) != 16:
         raise ToolError("quick run plan has %d runs" % len(quick_plan))
-    jobs = [("quickplan", quick_plan, FAST_SCENARIOS, 6 if q else 8)]
+    jobs = [("quickplan", quick_plan, FAST_SCENARIOS, 4 if q else 8)]
     if not q:
         rf = tlc("Determinism", "MCDeterminism", workers=4, coverage=False, consts={"PlanMode": '"full"', "DebugLen": "40"})
         tlc_must_pass(rf, "MCDeterminism(full plan)")
